@@ -149,7 +149,7 @@ func scenarioC03(r *Run) {
 	rc, err := r.Decode(kind, received)
 	if err != nil {
 		r.Outcome("not-decodable")
-		r.Logf("decode: %v", err)
+		r.Logf("decode: %s", errTag(err))
 		return
 	}
 	if !bytes.Equal(received, a.B) {
@@ -186,7 +186,7 @@ func scenarioC03(r *Run) {
 	}
 	var lib error
 	lib = r.VerifyLib(rc, external, vs...)
-	r.Logf("verify: %v", lib)
+	r.Logf("verify: %s", errTag(lib))
 
 	ref, perr := RefVerdict(kind, received, keys, external, override)
 	r.Check()
